@@ -67,6 +67,7 @@ type inst struct {
 	index    *vecfc.Index
 	input    *evStore
 	blocks   []blockRec
+	allBlocks []blockRec // every block since the instance was created (kept as handed over)
 	spec     map[uint64]*dag.MutableBaseEvent // event objects of speculative builds (for `rebuild`)
 	rootsCfg int // 0: cache 0/0, 1: 1/1, 2: 2/2, 3: lite default
 	critErr  string
@@ -136,14 +137,20 @@ func (in *inst) boot(genesis *pos.Validators) {
 	in.lch = abft.NewIndexedLachesis(in.store, in.input, &adapters.VectorToDagIndexer{Index: in.index}, crit, abft.LiteConfig())
 	err := in.lch.Bootstrap(lachesis.ConsensusCallbacks{
 		BeginBlock: func(block *lachesis.Block) lachesis.BlockCallbacks {
+			// the application keeps the block (and its cheaters slice) as handed over, without copying
 			rec := blockRec{epoch: uint64(in.store.GetEpoch()), frame: uint64(in.store.GetLastDecidedFrame()) + 1,
-				atropos: block.Atropos, cheaters: append([]idx.ValidatorID{}, block.Cheaters...)}
+				atropos: block.Atropos, cheaters: block.Cheaters}
 			return lachesis.BlockCallbacks{
 				ApplyEvent: func(e dag.Event) { rec.applied = append(rec.applied, e.ID()) },
 				EndBlock: func() *pos.Validators {
 					nv := in.r.seals[[2]uint64{rec.epoch, rec.frame}]
 					rec.sealed = nv != nil
 					in.blocks = append(in.blocks, rec)
+					in.allBlocks = append(in.allBlocks, rec)
+					if nv != nil && nv.String() == in.store.GetValidators().String() {
+						// an unchanged validator set is handed back as the very same object
+						return in.store.GetValidators()
+					}
 					return nv
 				},
 			}
@@ -235,7 +242,7 @@ func kvOf(ws []string) map[string]string {
 func (r *consRunner) Step(line string) string {
 	f := Fields(line)
 	switch f[0] {
-	case "restart", "reset", "build", "rebuild", "process", "fc", "hb", "roots", "state":
+	case "restart", "reset", "build", "rebuild", "process", "fc", "hb", "roots", "state", "allblocks":
 		if len(f) < 2 || r.insts[Atou(f[1])] == nil {
 			return "noinst"
 		}
@@ -410,6 +417,20 @@ func (r *consRunner) Step(line string) string {
 			parts[i] = fmt.Sprintf("%d:%s%s", x.Slot.Validator, r.num(x.ID), bad)
 		}
 		sort.Strings(parts)
+		if len(parts) == 0 {
+			return "-"
+		}
+		return strings.Join(parts, " ")
+	case "allblocks": // every block the application received so far: epoch.frame:cheaters
+		in := r.insts[Atou(f[1])]
+		parts := make([]string, len(in.allBlocks))
+		for i, b := range in.allBlocks {
+			ch := make([]string, len(b.cheaters))
+			for j, c := range b.cheaters {
+				ch[j] = fmt.Sprint(uint64(c))
+			}
+			parts[i] = fmt.Sprintf("%d.%d:a=%s:ch=[%s]", b.epoch, b.frame, r.num(b.atropos), strings.Join(ch, ","))
+		}
 		if len(parts) == 0 {
 			return "-"
 		}
@@ -868,6 +889,7 @@ func genConsCase(r *Rand, tier string, w *bufio.Writer) {
 		flush(k, 1<<30)
 	}
 	for k := 0; k < ninst; k++ {
+		emit("allblocks %d", k)
 		emit("state %d", k)
 		emit("roots %d %d", k, 1+r.Intn(4))
 	}
